@@ -12,7 +12,7 @@ import (
 // EditKinds is the universe (evidence floor: all of them must have been applied).
 var EditKinds = []string{
 	"add-column", "drop-column", "retype-column", "add-table", "drop-table", "change-key",
-	"add-reference", "drop-reference", "retarget-reference", "toggle-autoinc", "revert",
+	"add-reference", "drop-reference", "retarget-reference", "toggle-autoinc", "add-several-columns", "revert",
 }
 
 func (m *Model) removeTable(t *Table) {
@@ -83,6 +83,22 @@ func applyEdit(r *fw.Rand, m *Model, kind string, base *Model) bool {
 			c.AutoInc = true
 		}
 		t.Cols = append(t.Cols, c)
+		return true
+	case "add-several-columns":
+		// one table gains two to four columns in one step, references among them when a key
+		// of another table can be referred to (names in random alphabetical positions)
+		t := pickTable(r, m)
+		tg := keyTargets(m, t.Name)
+		n := r.Range(2, 4)
+		for k := 0; k < n; k++ {
+			name := colNamer(r, t).fresh(false)
+			if len(tg) > 0 && (k == 0 || r.Chance(1, 2)) {
+				x := tg[r.Intn(len(tg))]
+				t.Cols = append(t.Cols, &Column{Name: name, Kind: "ref", RefTable: x.T.Name, RefCol: x.C.Name})
+				continue
+			}
+			t.Cols = append(t.Cols, primColumn(r, name))
+		}
 		return true
 	case "drop-column":
 		t := pickTable(r, m)
